@@ -191,3 +191,17 @@ fn rac_c04_javadoc_pre() {
 fn rac_c04_javadoc_return() {
     rac_c04_probe("c04_javadoc_return", &[("java", "class A {\n  /** Foo bar.\n   * @return the value */\n  int f() { return 1; }\n}\n", &["Foo", "bar", "the", "value"])]);
 }
+
+// files of shapes that came up in seeded changes (a back-tick fence that contains a `~~~` line; a comment line that starts with a
+// Markdown link; a leading //go: directive): the words seen must be exactly the prose words
+#[test]
+fn rac_c04_fixed_files() {
+    rac_c04_probe("c04_fixed_files", &[
+        ("rust", "/// Before words.\n/// ```\n/// ~~~\n/// let zeta = 1;\n/// ```\n/// After words.\nfn f() {}\n", &["Before", "words", "After", "words"]),
+        ("python", "# Before words.\n# ```\n# ~~~\n# zeta = 1\n# ```\n# After words.\nx = 1\n", &["Before", "words", "After", "words"]),
+        ("rust", "// [guide](../handbook/getting_started) explains it\nfn f() {}\n", &["guide", "explains", "it"]),
+        ("javascript", "/**\n * [guide](../handbook/getting_started) explains it\n */\nfunction f() {}\n", &["guide", "explains", "it"]),
+        ("rust", "// See the [manual][1] first\n//\n// [1]: manual/chapter/intro\nfn f() {}\n", &["See", "the", "manual", "first"]),
+        ("go", "//go:build linux\n// Package foo does things.\npackage foo\n", &["Package", "foo", "does", "things"]),
+    ]);
+}
